@@ -160,6 +160,8 @@ func (m *Machine) intercept(fn *ssa.Function, args []Value) (Value, bool) {
 	case "strings.IndexRune", "strings.IndexByte":
 		m.stub(name)
 		return m.stringsIndex(args[0].(StringV), args[1].(*Term)), true
+	case "internal/stringslite.Clone", "strings.Clone":
+		return args[0], true
 	case "strings.ContainsAny":
 		m.stub(name)
 		return c.Bool(strings.ContainsAny(m.mustStr(args[0]), m.mustStr(args[1]))), true
